@@ -30,7 +30,8 @@ from sim import factories  # noqa: E402
 OBJLIST = frozenset(
     "layers classes styles symbols labels outputformats features scaletokens composites joins".split()
 )
-KEYS = ["name", "NAME", "Name", "layers", "LAYERS", "Layers", "type", "TYPE", "x", "X", "classes", "Web", "", "two words", "Two Words"]
+KEYS = ["name", "NAME", "Name", "layers", "LAYERS", "Layers", "type", "TYPE", "x", "X", "classes", "Web", "", "two words", "Two Words",
+        "data", "DATA", "e", "key", "__position__", "__comments__"]
 KEYS3 = ["name", "NAME", "layers", "Layers", "x", "X"]
 # keys whose lower() and casefold() differ, or whose upper-case form lowers differently (final sigma)
 KEYS_UNI = ["Straße", "STRASSE", "straße", "ΟΔΟΣ", "οδος", "οδοσ", "İstanbul", "name", "NAME"]
